@@ -43,6 +43,13 @@ ImpLost(e, isLong) == Max(0, Amt(e.pre.imp, isLong) - Amt(e.post.imp, isLong))
 C05Value(e) ==
   (IsSwap(e) /\ e.ok) =>
     e.out * Pout(e).max <= e.a * Pin(e).min + ImpLost(e, ~e.side) * Pout(e).max + ImpLost(e, e.side) * Pin(e).min
+(* "the positive price impact actually funded by the swap-impact pools": what the two pools lose in
+   a swap is (part of) that swap's positive price impact, so its value never exceeds the impact the
+   swap reports (each conversion of the impact value into tokens rounds down; exact on the design:
+   a * Pout.max <= impact, capped part c * Pin.min <= capped difference) *)
+C05Funded(e) ==
+  (IsSwap(e) /\ e.ok) =>
+    ImpLost(e, ~e.side) * Pout(e).max + ImpLost(e, e.side) * Pin(e).min <= Max(0, e.impact)
 ZeroFeesAndImpact(c) == c.feePos = 0 /\ c.feeNeg = 0 /\ c.impPos = 0 /\ c.impNeg = 0
 C05Exact(e) ==
   (IsSwap(e) /\ e.ok /\ ZeroFeesAndImpact(e.c)) => e.out = (e.a * Pin(e).min) \div Pout(e).max
